@@ -1,19 +1,26 @@
 #!/bin/bash
-# Runs every seeded change in /verif/seeded against its property's quick check (scratch copy of /repo)
-# and writes the detection matrix to seeded/RESULTS.md.
+# Runs every seeded change in /verif/seeded against its property's quick check (scratch copy of /repo;
+# the check named by "check" in meta.json where the own property's check cannot see the change) and
+# writes the detection matrix to seeded/RESULTS.md. SEEDS_PAR=<n> runs n at a time (default 1).
 cd "$(dirname "$0")/.."
 out=seeded/RESULTS.md
-{
-echo "# Seeded changes vs. checks (quick tier, VERIF_SEED=${VERIF_SEED:-1}, /repo at $(git -C /repo log --format=%h -1))"
-echo
-echo "| seed | property | result | first violation key |"
-echo "|---|---|---|---|"
-for d in seeded/*/; do
-  n=$(basename "$d"); p=$(python3 -c "import json;m=json.load(open('$d/meta.json'));print(m.get('check') or m['property'])")
+tmp=$(mktemp -d /var/tmp/verif-seeds.XXXXXX); trap 'rm -rf "$tmp"' EXIT
+one() {
+  d=$1; tmp=$2
+  n=$(basename "$d"); [ -f "$d/meta.json" ] || exit 0
+  p=$(python3 -c "import json;m=json.load(open('$d/meta.json'));print(m.get('check') or m['property'])")
   o=$(tools/mutant.sh "$d/patch.diff" "$p" quick 2>&1); rc=$?
   key=$(echo "$o" | grep -m1 '^VIOLATION' | sed -e 's/.*key=\(\S*\).*/\1/')
   case $rc in 1) r="DETECTED";; 0) r="missed";; 3) r="patch does not apply";; *) r="check broken (rc=$rc)";; esac
-  echo "| $n | $p | $r | $key |"
-done
-} > $out.tmp 2>&1
-mv $out.tmp $out
+  echo "| $n | $p | $r | $key |" > "$tmp/$n.row"
+}
+export -f one
+ls -d seeded/C*/ | xargs -P "${SEEDS_PAR:-1}" -I{} bash -c 'one {} '"$tmp"
+{
+echo "# Seeded changes vs. checks (quick tier, VERIF_SEED=${VERIF_SEED:-1}, /repo at $(git -C /repo log --format=%h -1))"
+echo
+echo "| seed | check | result | first violation key |"
+echo "|---|---|---|---|"
+cat "$tmp"/*.row
+} > $out
+grep -c DETECTED $out; grep -v DETECTED $out | grep "^| C" || true
